@@ -18,10 +18,28 @@
  *         script=skip_pause: A has active checks disabled, so the scheduler skips it and calls UpdateNextCheck() with its mutex
  *         released (checkercomponent.cpp:178-196); an OnNextCheckChanged slot of the harness pauses A from inside that window (on the
  *         scheduler's thread).  A must stay out of both sets until it is resumed (10 repetitions)
- *   K <cid> <enabled 0|1> <check_us> <retry_us> <async>  declaration (enabled = active checks on and period open; async = the
- *                                                        command behaves like PluginCheckTask: spawns and returns)
- *   E pick <cid> <forced>   | <inIdle> <inPending> <key_us> <now_us> <counter>      scheduler dispatched <cid>
- *   E skip <cid> 0          | <inIdle> <inPending> <key_us> <now_us> <counter>      scheduler skipped <cid>
+ *         script=wakeup_resched: A is the front of the idle queue (due in 600 s), B sits behind it (700 s); B is rescheduled to "now"
+ *         (SetNextCheck): the scheduler must wake up for the NEW front at once, not sleep on for the old one (12 repetitions, median)
+ *         script=eligibility: host H (always DOWN, hard), service S of H, host D with a disable_checks dependency on a gate host; the
+ *         global flags enable_host_checks / enable_service_checks, S's own flag and period and the gate are switched off and on again,
+ *         forced checks in between: S must keep being executed while H is down; nothing eligible is skipped, nothing ineligible runs
+ *         unless forced
+ *         script=plugin: every check command is the real PluginCheckTask (methods/pluginchecktask.cpp) running real processes (/bin/sh -c
+ *         "sleep ..; exit N") under max_concurrent_checks=2 with mutator threads: the task's own IncreasePendingChecks (:61) / the
+ *         DecreasePendingChecks of ProcessFinishedHandler (:68) are the real ones; `pi` is logged after the real +1 and `pd` before the
+ *         real -1, so the counter the driver derives from the trace is never above the real one
+ *         script=passive_during_check (F-C04c, fixed by 1c45f06): while A's asynchronous command runs (held by a latch until the forced
+ *         helper has come back), a passive result for A is processed and A is forced: the forced helper must find the guard busy; before
+ *         the fix ProcessCheckResult reset m_CheckRunning for EVERY result and a second execution of A started
+ *   K <cid> <enabled 0|1> <check_us> <retry_us> <async> <service> <foreign>  declaration (enabled = active checks on and period open at
+ *                                                        the start; async = the command behaves like PluginCheckTask: spawns and returns;
+ *                                                        service = a Service of one of the hosts; foreign = its zone is not the local zone)
+ *   E pick <cid> <forced>   | <inIdle> <inPending> <key_us> <now_us> <counter> <own> <ghost> <gsvc> <period> <dep> <recent>   scheduler dispatched <cid>
+ *   E skip <cid> 0          | <inIdle> <inPending> <key_us> <now_us> <counter> <own> <ghost> <gsvc> <period> <dep> <recent>   scheduler skipped <cid>
+ *                              the five facts are the HARNESS's bookkeeping of what it configured (all of them written under the checker's
+ *                              mutex): own enable_active_checks, global enable_host_checks, enable_service_checks, check period absent/open,
+ *                              no failed disable_checks dependency (the gate host it depends on is UP); a trailing <recent> = 1 marks a decision
+ *                              less than 3 ms after one of these facts was written (the eligibility clauses then accept the decision as taken)
  *   E fin <cid>             | <inIdle> <inPending> <key_us> <now_us>   ExecuteCheckHelper's final section
  *   E obj <cid>             | <inIdle> <inPending> <key_us> <now_us>   ObjectHandler section (not the early return)
  *   E nc <cid>              | <inIdle> <inPending> <key_us> <now_us>   NextCheckChangedHandler re-indexed
@@ -34,6 +52,8 @@
  *   E ob|oe <cid> <kind> [<value_us>]                             harness operation begins / has returned
  *                              kinds: pause resume activate deactivate setnext notify (OnPausedChanged fired without a change)
  *   E force <cid>                                                 SetForceNextCheck(true) (under the checker's mutex)
+ *   E pr <cid>                                                    a PASSIVE check result is about to be processed for <cid> (script=passive_during_check
+ *                                                                 only; F-C04c): it must not be followed by a flag reset (gR) of its own
  *   W <cid>                 | <now_before_us> <now_after_us> <next_us> <interval_us>
  *   Q <cid>                 | <schedulable> <inIdle> <inPending> <key_us> <next_us>  at quiescence
  *   M max_parallel=<..> overlap=<..> execs=<..> async_execs=<..> overdue_max_us=<..> canary_max_us=<..> hang=<0|1>   harness monitor
@@ -49,6 +69,11 @@
 #include "checker/checkercomponent.hpp"
 #include "icinga/checkcommand.hpp"
 #include "icinga/timeperiod.hpp"
+#include "icinga/service.hpp"
+#include "icinga/dependency.hpp"
+#include "remote/zone.hpp"
+#include "methods/pluginchecktask.hpp"
+#include "base/process.hpp"
 #include <atomic>
 #include <chrono>
 #include <cmath>
@@ -77,6 +102,8 @@ struct C04MtxTag { friend auto get(C04MtxTag); };
 template struct RobAuto<C04IdleTag, &CheckerComponent::m_IdleCheckables>;
 template struct RobAuto<C04PendTag, &CheckerComponent::m_PendingCheckables>;
 template struct RobAuto<C04MtxTag, &CheckerComponent::m_Mutex>;
+VH_ROB_STATIC(C04RobFinished, void (*type)(const Checkable::Ptr&, const CheckResult::Ptr&, const Value&, const ProcessResult&),
+	PluginCheckTask, ProcessFinishedHandler)
 }
 
 /* Membership / key of a checkable in one of the checker's sets: a plain scan over whatever the container iterates, looking only at
@@ -163,8 +190,8 @@ static void GenArith(Rng& rng, int count)
 /* ------------------------------------------------------------------------------------------- */
 /* scenario process */
 
-enum Kind : uint8_t { kPick, kSkip, kFin, kObj, kNc, kDec, kGE, kGB, kGR, kXs, kXe, kOb, kOe, kForce, kWin, kAs, kPi, kPd };
-static const char *l_KindName[] = { "pick", "skip", "fin", "obj", "nc", "dec", "gE", "gB", "gR", "xs", "xe", "ob", "oe", "force", "W", "as", "pi", "pd" };
+enum Kind : uint8_t { kPick, kSkip, kFin, kObj, kNc, kDec, kGE, kGB, kGR, kXs, kXe, kOb, kOe, kForce, kWin, kAs, kPi, kPd, kPr };
+static const char *l_KindName[] = { "pick", "skip", "fin", "obj", "nc", "dec", "gE", "gB", "gR", "xs", "xe", "ob", "oe", "force", "W", "as", "pi", "pd", "pr" };
 enum OpKind : uint8_t { oPause, oResume, oActivate, oDeactivate, oSetNext, oNotify };
 static const char *l_OpName[] = { "pause", "resume", "activate", "deactivate", "setnext", "notify" };
 
@@ -176,14 +203,23 @@ struct Rec {
 	int counter;
 	long long key, now; /* W: key = now_before, now = now_after */
 	long long x, y;     /* W: next, interval; setnext: value */
+	uint8_t facts;      /* pick/skip: own | ghost<<1 | gsvc<<2 | period<<3 | dep<<4 (harness bookkeeping) */
 };
 
 struct CInfo {
-	Host::Ptr obj;
+	Checkable::Ptr obj;
 	bool enabled;
 	long long checkUs, retryUs;
 	int mode;           /* 0 ok, 1 alternating ok/critical, 2 throws sometimes, 3 always critical */
 	bool async{false};  /* command spawns a "process" (own thread) and returns, like PluginCheckTask */
+	std::atomic<bool> hold{false}; /* async command: the "process" does not finish before the script releases it (no wall-clock premise) */
+	bool plugin{false}; /* the command is the REAL PluginCheckTask::ScriptFunc running a real process (script=plugin) */
+	bool svc{false};    /* a Service (of host `hostCid`) */
+	bool foreign{false};/* zone != local zone: never this node's to schedule (checkercomponent.cpp:320-321,326) */
+	int gate{-1};       /* depends (disable_checks) on this gate host */
+	std::atomic<bool> own{true};  /* enable_active_checks as the harness set it */
+	std::atomic<int> period{0};   /* check_period as the harness set it: 0 none, 1 "open", 2 "closed" */
+	std::atomic<long long> lastToggleUs{0}; /* when own / period were last written */
 	double execMeanUs;
 	long long fixedExecUs{-1}; /* scripted scenarios: exactly this long */
 	/* harness view, guarded by mut */
@@ -194,6 +230,10 @@ struct CInfo {
 	std::atomic<unsigned> execNo{0};
 };
 
+struct Gate { Host::Ptr obj; std::atomic<bool> up{true}; std::atomic<long long> lastToggleUs{0}; };
+static std::atomic<long long> l_LastGlobalToggleUs{0};
+static std::vector<Gate*> l_Gates;
+static std::atomic<bool> l_GHost{true}, l_GSvc{true};
 static std::vector<Rec> l_Trace;
 static std::mutex l_TraceMutex;
 static std::vector<CInfo*> l_C;
@@ -277,6 +317,19 @@ static void Hook(const char *name, const void *obj)
 		r.inPending = FindIn(pend, l_C[cid]->obj.get(), nullptr);
 		r.now = Us(Utility::GetTime());
 		if (r.kind == kPick || r.kind == kSkip) {
+			/* what the guard set may read, as the harness configured it (every write of these happens under m_Mutex, which this
+			 * thread holds since before it read them) */
+			CInfo& ci = *l_C[cid];
+			r.facts = (ci.own.load() ? 1 : 0) | (l_GHost.load() ? 2 : 0) | (l_GSvc.load() ? 4 : 0) | (ci.period.load() != 2 ? 8 : 0)
+				| ((ci.gate < 0 || l_Gates[ci.gate]->up.load()) ? 16 : 0);
+			/* bit 5: one of these facts was written less than 3 ms ago.  The writes and this read are ordered by m_Mutex, so on the code as
+			 * it is the facts are exact; the mark keeps a rewrite that reads a flag a moment earlier (before taking the lock) or later
+			 * from being blamed for a toggle that fell in between: the specification then takes the decision as it is */
+			long long lastTg = std::max(ci.lastToggleUs.load(), l_LastGlobalToggleUs.load());
+			if (ci.gate >= 0)
+				lastTg = std::max(lastTg, l_Gates[ci.gate]->lastToggleUs.load());
+			if (r.now - lastTg < 3000)
+				r.facts |= 32;
 			r.counter = Checkable::GetPendingChecks();
 			if (r.kind == kPick)
 				l_Picks++;
@@ -287,6 +340,8 @@ static void Hook(const char *name, const void *obj)
 	Append(r);
 	MaybeDelay();
 }
+
+static void Window(const Checkable::Ptr& checkable, int cid, double nb, double na, unsigned ep0);
 
 /* hand the result to ProcessCheckResult and measure where next_check ends up */
 static void Deliver(const Checkable::Ptr& checkable, const CheckResult::Ptr& cr, int cid, int state, unsigned ep0)
@@ -303,6 +358,12 @@ static void Deliver(const Checkable::Ptr& checkable, const CheckResult::Ptr& cr,
 	 * not "an active checkable this node is responsible for"; deactivation is final, so active now = active all the time */
 	if (res != Checkable::ProcessingResult::Ok || !checkable->IsActive())
 		return;
+	Window(checkable, cid, nb, na, ep0);
+}
+
+static void Window(const Checkable::Ptr& checkable, int cid, double nb, double na, unsigned ep0)
+{
+	CInfo& ci = *l_C[cid];
 	double next = checkable->GetNextCheck();
 	double iv = (checkable->GetStateType() == StateTypeSoft && checkable->GetLastCheckResult() != nullptr)
 		? checkable->GetRetryInterval() : checkable->GetCheckInterval();
@@ -314,7 +375,7 @@ static void Deliver(const Checkable::Ptr& checkable, const CheckResult::Ptr& cr,
 }
 
 /* CheckCommand.execute */
-static void ExecFn(const Checkable::Ptr& checkable, const CheckResult::Ptr& cr, const Dictionary::Ptr&, bool)
+static void ExecFn(const Checkable::Ptr& checkable, const CheckResult::Ptr& cr, const Dictionary::Ptr& resolvedMacros, bool useResolvedMacros)
 {
 	auto it = l_Ids.find((const void *)checkable.get());
 	if (it == l_Ids.end())
@@ -345,6 +406,37 @@ static void ExecFn(const Checkable::Ptr& checkable, const CheckResult::Ptr& cr, 
 	else if (ci.mode == 3) state = 2;
 	else if (ci.mode == 2) state = (int)rng.below(4);
 
+	if (ci.plugin) {
+		/* the real thing: PluginCheckTask::ScriptFunc spawns the process (pluginchecktask.cpp:56-57) and takes its own unit (:59-62);
+		 * ProcessFinishedHandler gives it back (:67-68) and processes the result.  The completion callback is the documented hook
+		 * (:48-49, thread_local, copied by ScriptFunc), which logs and then runs the real handler. */
+		{ Rec r{}; r.kind = kAs; r.cid = cid; Append(r); }
+		l_AsyncLive++;
+		l_AsyncExecs++;
+		Checkable::ExecuteCommandProcessFinishedHandler = [checkable, cr, cid, ep0](const Value& commandLine, const ProcessResult& pr) {
+			CInfo& ci = *l_C[cid];
+			{ Rec r{}; r.kind = kXe; r.cid = cid; r.now = Us(Utility::GetTime()); Append(r); }
+			--l_Parallel;
+			ci.running.fetch_sub(1);
+			{ Rec r{}; r.kind = kPd; r.cid = cid; Append(r); } /* before the real -1 */
+			double nb = Utility::GetTime();
+			get(C04RobFinished())(checkable, cr, commandLine, pr);
+			double na = Utility::GetTime();
+			if (checkable->IsActive() && checkable->GetLastCheckResult() == cr)
+				Window(checkable, cid, nb, na, ep0);
+			l_AsyncLive--;
+		};
+		try {
+			PluginCheckTask::ScriptFunc(checkable, cr, resolvedMacros, useResolvedMacros);
+		} catch (...) {
+			Checkable::ExecuteCommandProcessFinishedHandler = nullptr;
+			throw;
+		}
+		Checkable::ExecuteCommandProcessFinishedHandler = nullptr;
+		{ Rec r{}; r.kind = kPi; r.cid = cid; Append(r); } /* after the real +1 */
+		return;
+	}
+
 	if (ci.async) {
 		/* PluginCheckTask::ScriptFunc: spawn (the callback may run at any time from now on), then the task's own +1 */
 		{ Rec r{}; r.kind = kAs; r.cid = cid; Append(r); }
@@ -355,6 +447,8 @@ static void ExecFn(const Checkable::Ptr& checkable, const CheckResult::Ptr& cr, 
 			CInfo& ci = *l_C[cid];
 			if (sleepUs >= 1)
 				std::this_thread::sleep_for(std::chrono::microseconds(sleepUs));
+			for (int i = 0; i < 30000 && ci.hold.load(); i++)
+				std::this_thread::sleep_for(std::chrono::milliseconds(1));
 			{ Rec r{}; r.kind = kXe; r.cid = cid; r.now = Us(Utility::GetTime()); Append(r); }
 			--l_Parallel;
 			ci.running.fetch_sub(1);
@@ -444,6 +538,37 @@ static void OpForce(int cid)
 	Rec r{}; r.kind = kForce; r.cid = cid; Append(r);
 }
 
+/* the inputs of the scheduler's guard set: written (attribute and harness bookkeeping together) under the checker's mutex, so that the
+ * scheduler's section that reads them sees exactly what the bookkeeping says (none of the attributes has a handler inside the checker) */
+template<typename F>
+static void UnderCheckerMutex(F f)
+{
+	auto& cmtx = l_Checker.get()->*get(C04MtxTag()); std::unique_lock<std::remove_reference_t<decltype(cmtx)>> lock(cmtx);
+	f();
+}
+static void OpSetOwn(int cid, bool b)
+{
+	CInfo& ci = *l_C[cid];
+	UnderCheckerMutex([&]() { ci.obj->SetEnableActiveChecks(b); ci.own = b; ci.lastToggleUs = Us(Utility::GetTime()); });
+}
+static void OpSetPeriod(int cid, int p)
+{
+	CInfo& ci = *l_C[cid];
+	UnderCheckerMutex([&]() { ci.obj->SetCheckPeriodRaw(p == 0 ? "" : p == 1 ? "open" : "closed"); ci.period = p; ci.lastToggleUs = Us(Utility::GetTime()); });
+}
+static void OpSetGlobal(bool svc, bool b)
+{
+	UnderCheckerMutex([&]() {
+		if (svc) { IcingaApplication::GetInstance()->SetEnableServiceChecks(b); l_GSvc = b; }
+		else { IcingaApplication::GetInstance()->SetEnableHostChecks(b); l_GHost = b; }
+		l_LastGlobalToggleUs = Us(Utility::GetTime());
+	});
+}
+static void OpSetGate(int g, bool up)
+{
+	UnderCheckerMutex([&]() { l_Gates[g]->obj->SetStateRaw(up ? ServiceOK : ServiceCritical); l_Gates[g]->up = up; l_Gates[g]->lastToggleUs = Us(Utility::GetTime()); });
+}
+
 static void Mutator(int idx, int initial)
 {
 	Rng rng(l_Seed * 1315423911ULL + 1000 + idx);
@@ -466,6 +591,17 @@ static void Mutator(int idx, int initial)
 					OpActivate(cid);
 					if (rng.below(4) != 0) OpResume(cid);
 				}
+			} else if (!ci.deactivated && rng.below(10) == 0) {
+				/* the inputs of the guard set change at run time */
+				int k = (int)rng.below(12);
+				if ((!ci.own.load() || ci.period.load() == 2) && rng.below(2) == 0) { OpSetOwn(cid, true); OpSetPeriod(cid, (int)rng.below(2)); }
+				else if (!l_GHost.load() && rng.below(2) == 0) OpSetGlobal(false, true);
+				else if (!l_GSvc.load() && rng.below(2) == 0) OpSetGlobal(true, true);
+				else if (k < 4) OpSetOwn(cid, !ci.own.load() || rng.below(3) == 0);
+				else if (k < 7) OpSetPeriod(cid, ci.period.load() == 2 ? (int)rng.below(2) : (int)rng.below(3));
+				else if (k < 8) OpSetGlobal(false, !l_GHost.load());
+				else if (k < 9) OpSetGlobal(true, !l_GSvc.load());
+				else if (!l_Gates.empty()) { int g = (int)rng.below(l_Gates.size()); OpSetGate(g, !l_Gates[g]->up.load() || rng.below(3) == 0); }
 			} else if (!ci.deactivated) {
 				int k = (int)rng.below(100);
 				if (k < 22) { if (ci.paused) OpResume(cid); else OpPause(cid); }
@@ -515,10 +651,12 @@ static void PrintTrace(FILE *out)
 	for (const Rec& r : l_Trace) {
 		const char *k = l_KindName[r.kind];
 		switch (r.kind) {
-			case kPick: fprintf(out, "E pick %d %d | %d %d %lld %lld %d\n", r.cid, (int)r.a, r.inIdle, r.inPending, r.key, r.now, r.counter); break;
-			case kSkip: fprintf(out, "E skip %d 0 | %d %d %lld %lld %d\n", r.cid, r.inIdle, r.inPending, r.key, r.now, r.counter); break;
+			case kPick: fprintf(out, "E pick %d %d | %d %d %lld %lld %d %d %d %d %d %d %d\n", r.cid, (int)r.a, r.inIdle, r.inPending, r.key, r.now, r.counter,
+				r.facts & 1, (r.facts >> 1) & 1, (r.facts >> 2) & 1, (r.facts >> 3) & 1, (r.facts >> 4) & 1, (r.facts >> 5) & 1); break;
+			case kSkip: fprintf(out, "E skip %d 0 | %d %d %lld %lld %d %d %d %d %d %d %d\n", r.cid, r.inIdle, r.inPending, r.key, r.now, r.counter,
+				r.facts & 1, (r.facts >> 1) & 1, (r.facts >> 2) & 1, (r.facts >> 3) & 1, (r.facts >> 4) & 1, (r.facts >> 5) & 1); break;
 			case kFin: case kObj: case kNc: fprintf(out, "E %s %d | %d %d %lld %lld\n", k, r.cid, r.inIdle, r.inPending, r.key, r.now); break;
-			case kDec: case kGE: case kGB: case kGR: case kForce: case kAs: case kPi: case kPd: fprintf(out, "E %s %d\n", k, r.cid); break;
+			case kDec: case kGE: case kGB: case kGR: case kForce: case kAs: case kPi: case kPd: case kPr: fprintf(out, "E %s %d\n", k, r.cid); break;
 			case kXs: case kXe: fprintf(out, "E %s %d | %lld\n", k, r.cid, r.now); break;
 			case kOb: case kOe:
 				if (r.a == oSetNext) fprintf(out, "E %s %d %s %lld\n", k, r.cid, l_OpName[r.a], r.x);
@@ -544,8 +682,20 @@ static int RunScenario(const std::vector<std::string>& w)
 	bool wakeupAsync = kv.count("script") && kv["script"] == "wakeup_async";
 	bool wakeup = wakeupAsync || (kv.count("script") && kv["script"] == "wakeup");
 	bool skipPause = kv.count("script") && kv["script"] == "skip_pause";
+	bool wakeResched = kv.count("script") && kv["script"] == "wakeup_resched";
+	bool eligScript = kv.count("script") && kv["script"] == "eligibility";
 	if (wakeup) { n = 2; pool = 0; maxc = 1; mut = 0; }
 	if (skipPause) { n = 2; pool = 0; maxc = 2; mut = 0; }
+	if (wakeResched) { n = 2; pool = 0; maxc = 4; mut = 0; }
+	if (eligScript) { n = 3; pool = 0; maxc = 4; mut = 0; }
+	bool pluginScript = kv.count("script") && kv["script"] == "plugin";
+	if (pluginScript) {
+		n = 8; pool = 2; maxc = 2;
+		Process::InitializeSpawnHelper(); /* must be forked before any thread exists (daemoncommand.cpp:538) */
+	}
+	bool passiveScript = kv.count("script") && kv["script"] == "passive_during_check";
+	if (passiveScript) { n = 2; pool = 0; maxc = 4; mut = 0; }
+	bool scripted = wakeup || skipPause || wakeResched || eligScript || passiveScript;
 
 	Configuration::Concurrency = 12; /* thread pool = 24 threads */
 	InitIcinga();
@@ -557,6 +707,18 @@ static int RunScenario(const std::vector<std::string>& w)
 	cmd->SetName("vcmd");
 	cmd->SetExecute(new Function("vexec", ExecFn, { "checkable", "cr", "resolvedMacros", "useResolvedMacros" }));
 	cmd->Register();
+
+	if (pluginScript) {
+		static const char *lines[] = { "sleep 0.01; exit 0", "sleep 0.03; exit 2", "exit 1", "sleep 0.002; exit 0" };
+		for (int k = 0; k < 4; k++) {
+			CheckCommand::Ptr pc = new CheckCommand();
+			pc->SetName("pcmd" + Convert::ToString(k));
+			pc->SetExecute(new Function("vexec", ExecFn, { "checkable", "cr", "resolvedMacros", "useResolvedMacros" }));
+			pc->SetCommandLine(new Array({ "/bin/sh", "-c", lines[k] }));
+			pc->SetTimeout(30);
+			pc->Register();
+		}
+	}
 
 	auto mkPeriod = [](const char *name, bool open) {
 		TimePeriod::Ptr tp = new TimePeriod();
@@ -572,14 +734,56 @@ static int RunScenario(const std::vector<std::string>& w)
 	mkPeriod("open", true);
 	mkPeriod("closed", false);
 
+	/* a zone that is not the local one (there is no local endpoint, so Zone::GetLocalZone() is null): checkables in it are not this
+	 * node's to schedule */
+	{
+		Zone::Ptr z = new Zone();
+		z->SetName("foreign");
+		z->Register();
+	}
+	/* gate hosts: parents of explicit `disable_checks` dependencies; never scheduled themselves, their state is set by the harness */
+	int ngates = scripted ? (eligScript ? 1 : 0) : 2;
+	for (int g = 0; g < ngates; g++) {
+		Gate *gt = new Gate();
+		gt->obj = new Host();
+		gt->obj->SetName("gate" + Convert::ToString(g));
+		gt->obj->SetLastCheckResult(MakeCr(ServiceOK, 1, 1));
+		gt->obj->SetStateType(StateTypeHard);
+		gt->obj->SetStateRaw(ServiceOK);
+		gt->obj->Register();
+		l_Gates.push_back(gt);
+	}
+
 	/* checkables: n initially active ones + `pool` that are created at run time */
 	int total = n + pool;
 	double demand = 0;
 	int style = (int)rng.below(3); /* 0 fast, 1 mixed, 2 some above 1 s */
 	for (int i = 0; i < total; i++) {
 		CInfo *ci = new CInfo();
-		Host::Ptr h = new Host();
-		h->SetName("h" + Convert::ToString(i));
+		/* one in three is a Service of an earlier host (the host is a checkable of the scenario like any other: it goes DOWN, is
+		 * paused, deactivated …); in the eligibility probe checkable 1 is a service of host 0 */
+		int hostCid = -1;
+		if ((!scripted && i > 0 && rng.below(3) == 0) || (eligScript && i == 1)) {
+			for (int j = eligScript ? 0 : (int)rng.below(i), t = 0; t < i; t++, j = (j + 1) % i)
+				if (!l_C[j]->svc) { hostCid = j; break; }
+		}
+		Checkable::Ptr h;
+		if (hostCid >= 0) {
+			Service::Ptr sv = new Service();
+			sv->SetHostName(l_C[hostCid]->obj->GetName());
+			sv->SetShortName("s" + Convert::ToString(i));
+			sv->SetName(l_C[hostCid]->obj->GetName() + "!s" + Convert::ToString(i));
+			h = sv;
+			ci->svc = true;
+		} else {
+			Host::Ptr ho = new Host();
+			ho->SetName("h" + Convert::ToString(i));
+			h = ho;
+		}
+		if (!scripted && rng.below(12) == 0) {
+			h->SetZoneName("foreign");
+			ci->foreign = true;
+		}
 		h->SetCheckCommandRaw("vcmd");
 		long long ivUs;
 		int r = (int)rng.below(10);
@@ -593,21 +797,39 @@ static int RunScenario(const std::vector<std::string>& w)
 		h->SetMaxCheckAttempts(1 + (int)rng.below(3));
 		int dis = (int)rng.below(10);
 		bool enabled = true;
-		if (dis == 0) { h->SetEnableActiveChecks(false); enabled = false; }
-		else if (dis == 1) { h->SetCheckPeriodRaw("closed"); enabled = false; }
-		else if (dis == 2) h->SetCheckPeriodRaw("open");
+		if (dis == 0) { h->SetEnableActiveChecks(false); enabled = false; ci->own = false; }
+		else if (dis == 1) { h->SetCheckPeriodRaw("closed"); enabled = false; ci->period = 2; }
+		else if (dis == 2) { h->SetCheckPeriodRaw("open"); ci->period = 1; }
+		if ((!scripted && rng.below(6) == 0) || (eligScript && i == 2)) {
+			/* explicit dependency with disable_checks on a gate host (registered with the child's dependency groups by Checkable::Start) */
+			ci->gate = (int)rng.below(l_Gates.size());
+			Dependency::Ptr dep = new Dependency();
+			dep->SetName(h->GetName() + "!dep");
+			dep->SetParent(l_Gates[ci->gate]->obj);
+			dep->SetChild(h);
+			dep->SetStateFilter(StateFilterUp);
+			dep->SetDisableChecks(true);
+			dep->SetRedundancyGroup("");
+			h->AddDependency(dep);
+			l_Gates[ci->gate]->obj->AddReverseDependency(dep);
+		}
 		ci->obj = h;
 		ci->enabled = enabled;
 		ci->checkUs = ivUs;
 		ci->retryUs = rvUs;
 		ci->mode = (int)rng.below(4);
 		ci->async = rng.below(3) == 0 && !getenv("C04_NOASYNC");
+		if (pluginScript) {
+			ci->plugin = true;
+			ci->async = false;
+			h->SetCheckCommandRaw("pcmd" + Convert::ToString((int)rng.below(4)));
+		}
 		if (enabled)
 			demand += 1e6 / (double)std::min(ivUs, rvUs);
 		h->Register();
 		static_pointer_cast<ConfigObject>(h)->OnAllConfigLoaded();
 		l_C.push_back(ci);
-		l_Ids[(const void *)static_cast<Checkable *>(h.get())] = i;
+		l_Ids[(const void *)h.get()] = i;
 	}
 	/* keep the offered load below ~40 % of max_concurrent_checks so that lateness means something */
 	double meanUs = 0.4 * maxc / std::max(demand, 1.0) * 1e6;
@@ -616,17 +838,34 @@ static int RunScenario(const std::vector<std::string>& w)
 		ci->execMeanUs = meanUs * (0.3 + rng.below(1400) / 1000.0);
 	if (skipPause) {
 		for (CInfo *ci : l_C) {
-			ci->async = false; ci->mode = 0; ci->enabled = true;
+			ci->async = false; ci->mode = 0; ci->enabled = true; ci->own = true; ci->period = 0;
 			ci->obj->SetEnableActiveChecks(true); ci->obj->SetCheckPeriodRaw("");
 			ci->obj->SetCheckInterval(30); ci->obj->SetRetryInterval(30); ci->checkUs = ci->retryUs = 30000000;
 			ci->fixedExecUs = 1000;
 		}
 		l_C[0]->obj->SetEnableActiveChecks(false); /* A is skipped whenever it comes due */
 		l_C[0]->enabled = false;
+		l_C[0]->own = false;
+	}
+	if (wakeResched || eligScript || passiveScript) {
+		for (CInfo *ci : l_C) {
+			ci->async = false; ci->mode = 0; ci->enabled = true; ci->own = true; ci->period = 0;
+			ci->obj->SetEnableActiveChecks(true); ci->obj->SetCheckPeriodRaw("");
+			double iv = eligScript ? 0.05 : 30;
+			ci->obj->SetCheckInterval(iv); ci->obj->SetRetryInterval(iv); ci->checkUs = ci->retryUs = (long long)(iv * 1e6);
+			ci->obj->SetMaxCheckAttempts(1);
+			ci->fixedExecUs = 1000;
+		}
+		if (eligScript)
+			l_C[0]->mode = 3; /* the host is DOWN (hard after the first result) all the time */
+		if (passiveScript) {
+			l_C[0]->async = true;
+			l_C[0]->fixedExecUs = 5000;
+		}
 	}
 	if (wakeup) {
 		for (CInfo *ci : l_C) {
-			ci->async = false; ci->mode = 0; ci->enabled = true;
+			ci->async = false; ci->mode = 0; ci->enabled = true; ci->own = true; ci->period = 0;
 			ci->obj->SetEnableActiveChecks(true); ci->obj->SetCheckPeriodRaw("");
 			ci->obj->SetCheckInterval(30); ci->obj->SetRetryInterval(30); ci->checkUs = ci->retryUs = 30000000;
 		}
@@ -636,9 +875,11 @@ static int RunScenario(const std::vector<std::string>& w)
 	}
 
 	printf("%s %s sched seed=%llu n=%d pool=%d max=%d dur_ms=%d mut=%d bound_ms=%s%s\n", w[0].c_str(), w[1].c_str(),
-		(unsigned long long)l_Seed, n, pool, maxc, durMs, mut, kv["bound_ms"].c_str(), wakeupAsync ? " script=wakeup_async" : wakeup ? " script=wakeup" : skipPause ? " script=skip_pause" : "");
+		(unsigned long long)l_Seed, n, pool, maxc, durMs, mut, kv["bound_ms"].c_str(), wakeupAsync ? " script=wakeup_async" : wakeup ? " script=wakeup" : skipPause ? " script=skip_pause"
+			: wakeResched ? " script=wakeup_resched" : eligScript ? " script=eligibility" : pluginScript ? " script=plugin" : passiveScript ? " script=passive_during_check" : "");
 	for (int i = 0; i < total; i++)
-		printf("K %d %d %lld %lld %d\n", i, l_C[i]->enabled ? 1 : 0, l_C[i]->checkUs, l_C[i]->retryUs, l_C[i]->async ? 1 : 0);
+		printf("K %d %d %lld %lld %d %d %d\n", i, l_C[i]->enabled ? 1 : 0, l_C[i]->checkUs, l_C[i]->retryUs, (l_C[i]->async || l_C[i]->plugin) ? 1 : 0,
+			l_C[i]->svc ? 1 : 0, l_C[i]->foreign ? 1 : 0);
 
 	l_DelayPermille = 20 + (int)rng.below(120);
 	VerifPointHook() = Hook;
@@ -734,7 +975,98 @@ static int RunScenario(const std::vector<std::string>& w)
 	std::vector<std::thread> threads;
 	for (int i = 0; i < mut; i++)
 		threads.emplace_back(Mutator, i, n);
-	if (skipPause) {
+	if (wakeResched) {
+		l_DelayPermille = 0;
+		auto waitFor3 = [](std::function<bool()> cond, int ms) {
+			for (int i = 0; i < ms * 2 && !cond(); i++)
+				std::this_thread::sleep_for(std::chrono::microseconds(500));
+			return cond();
+		};
+		CInfo& A = *l_C[0];
+		CInfo& B = *l_C[1];
+		{ std::unique_lock<std::mutex> la(A.mut); if (A.paused) OpResume(0); }
+		{ std::unique_lock<std::mutex> lb(B.mut); if (B.paused) OpResume(1); }
+		std::this_thread::sleep_for(std::chrono::milliseconds(30));
+		int unanswered = 0;
+		for (int rep = 0; rep < 12; rep++) {
+			waitFor3([&]() { return Checkable::GetPendingChecks() == 0; }, 8000);
+			/* A is the front of the idle queue, B sits behind it; the scheduler sleeps until A's time */
+			{ std::unique_lock<std::mutex> la(A.mut); OpSetNext(0, Utility::GetTime() + 600); }
+			{ std::unique_lock<std::mutex> lb(B.mut); OpSetNext(1, Utility::GetTime() + 700); }
+			std::this_thread::sleep_for(std::chrono::milliseconds(25));
+			unsigned bBefore = B.execNo.load();
+			/* B becomes the new front and is due: the scheduler must not sleep on for the old front */
+			{ std::unique_lock<std::mutex> lb(B.mut); OpSetNext(1, Utility::GetTime()); }
+			/* no wall-clock margin: nothing else happens until B has been taken, however long that takes on a loaded machine (8 s is four
+			 * orders of magnitude above the normal 0.1 ms); two unanswered reschedules end the probe */
+			if (!waitFor3([&]() { return B.execNo.load() > bBefore; }, 8000) && ++unanswered >= 2)
+				break;
+		}
+	} else if (passiveScript) {
+		l_DelayPermille = 0;
+		auto waitFor4 = [](std::function<bool()> cond, int ms) {
+			for (int i = 0; i < ms * 2 && !cond(); i++)
+				std::this_thread::sleep_for(std::chrono::microseconds(500));
+			return cond();
+		};
+		CInfo& A = *l_C[0];
+		{ std::unique_lock<std::mutex> la(A.mut); if (A.paused) OpResume(0); }
+		{ std::unique_lock<std::mutex> lb(l_C[1]->mut); OpSetNext(1, Utility::GetTime() + 900); } /* B stays out of the way */
+		for (int rep = 0; rep < 6; rep++) {
+			waitFor4([&]() { return Checkable::GetPendingChecks() == 0 && A.running.load() == 0 && l_AsyncLive.load() == 0; }, 10000);
+			{ std::unique_lock<std::mutex> la(A.mut); OpSetNext(0, Utility::GetTime() + 600); }
+			std::this_thread::sleep_for(std::chrono::milliseconds(20));
+			long picks0 = l_Picks.load();
+			A.hold = true; /* A's "process" keeps running until the script releases it: no premise about durations */
+			{ std::unique_lock<std::mutex> la(A.mut); OpSetNext(0, Utility::GetTime()); }
+			if (!waitFor4([&]() { return A.running.load() > 0 && l_Finishes.load() >= picks0 + 1; }, 10000)) {
+				A.hold = false;
+				continue;
+			}
+			{
+				/* a passive result (as the process-check-result API action builds it) while the active check is running */
+				std::unique_lock<std::mutex> la(A.mut);
+				A.epoch++;
+				{ Rec r{}; r.kind = kPr; r.cid = 0; Append(r); }
+				CheckResult::Ptr pcr = new CheckResult();
+				double t = Utility::GetTime();
+				pcr->SetState(ServiceOK);
+				pcr->SetOutput("passive");
+				pcr->SetActive(false);
+				pcr->SetExecutionStart(t); pcr->SetExecutionEnd(t); pcr->SetScheduleStart(t); pcr->SetScheduleEnd(t);
+				A.obj->ProcessCheckResult(pcr);
+				A.epoch++;
+				OpForce(0);
+				OpSetNext(0, Utility::GetTime());
+			}
+			/* the forced check is dispatched and its helper has come back (guard busy), or — before fix 1c45f06 — has started a second
+			 * execution; only then may the first one finish */
+			waitFor4([&]() { return l_Picks.load() >= picks0 + 2 && l_Finishes.load() >= picks0 + 2; }, 10000);
+			A.hold = false;
+			waitFor4([&]() { return A.running.load() == 0 && l_AsyncLive.load() == 0; }, 10000);
+		}
+		A.hold = false;
+	} else if (eligScript) {
+		l_DelayPermille = 0;
+		auto ms = [](int k) { std::this_thread::sleep_for(std::chrono::milliseconds(k)); };
+		for (int i = 0; i < 3; i++) { std::unique_lock<std::mutex> l(l_C[i]->mut); if (l_C[i]->paused) OpResume(i); OpSetNext(i, Utility::GetTime()); }
+		ms(350);                                   /* H goes DOWN (hard); S and D keep being executed */
+		OpSetGlobal(true, false); ms(150);         /* service checks off: S is skipped, H and D run */
+		{ std::unique_lock<std::mutex> l(l_C[1]->mut); OpForce(1); OpSetNext(1, Utility::GetTime()); } ms(60);
+		OpSetGlobal(true, true); ms(100);
+		OpSetGlobal(false, false); ms(150);        /* host checks off: H and D are skipped, S runs */
+		{ std::unique_lock<std::mutex> l(l_C[2]->mut); OpForce(2); OpSetNext(2, Utility::GetTime()); } ms(60);
+		OpSetGlobal(false, true); ms(100);
+		OpSetGate(0, false); ms(150);              /* D's disable_checks dependency fails: D is skipped */
+		{ std::unique_lock<std::mutex> l(l_C[2]->mut); OpForce(2); OpSetNext(2, Utility::GetTime()); } ms(60);
+		OpSetGate(0, true); ms(100);
+		{ std::unique_lock<std::mutex> l(l_C[1]->mut); OpSetOwn(1, false); } ms(150);
+		{ std::unique_lock<std::mutex> l(l_C[1]->mut); OpForce(1); OpSetNext(1, Utility::GetTime()); } ms(60);
+		{ std::unique_lock<std::mutex> l(l_C[1]->mut); OpSetOwn(1, true); } ms(100);
+		{ std::unique_lock<std::mutex> l(l_C[1]->mut); OpSetPeriod(1, 2); } ms(150);
+		{ std::unique_lock<std::mutex> l(l_C[1]->mut); OpSetPeriod(1, 1); } ms(100);
+		{ std::unique_lock<std::mutex> l(l_C[1]->mut); OpSetPeriod(1, 0); } ms(100);
+	} else if (skipPause) {
 		l_DelayPermille = 0;
 		auto waitFor2 = [](std::function<bool()> cond, int ms) {
 			for (int i = 0; i < ms * 2 && !cond(); i++)
@@ -831,7 +1163,7 @@ static int RunScenario(const std::vector<std::string>& w)
 			Checkable::Ptr key(l_C[i]->obj);
 			double k = 0;
 			bool inIdle = FindIn(idle, key.get(), &k);
-			bool sched = key->IsActive() && !key->IsPaused();
+			bool sched = key->IsActive() && !key->IsPaused() && !l_C[i]->foreign;
 			printf("Q %d | %d %d %d %lld %lld\n", i, sched ? 1 : 0, inIdle ? 1 : 0, FindIn(pend, key.get(), nullptr) ? 1 : 0,
 				inIdle ? Us(k) : 0, Us(key->GetNextCheck()));
 		}
@@ -978,6 +1310,32 @@ int main(int argc, char **argv)
 		for (int i = 0; i < (thorough ? 2 : 1); i++) {
 			char buf[256];
 			snprintf(buf, sizeof(buf), "C %d sched seed=%llu n=2 pool=0 max=2 dur_ms=3000 mut=0 bound_ms=2500 script=skip_pause", caseNo++,
+				(unsigned long long)(rng.next() >> 16));
+			Job j;
+			j.line = buf;
+			jobs.push_back(j);
+		}
+		for (int i = 0; i < (thorough ? 4 : 2); i++) {
+			char buf[256];
+			snprintf(buf, sizeof(buf), "C %d sched seed=%llu n=%d pool=0 max=4 dur_ms=3000 mut=0 bound_ms=700 script=%s", caseNo++,
+				(unsigned long long)(rng.next() >> 16), i % 2 ? 3 : 2, i % 2 ? "eligibility" : "wakeup_resched");
+			Job j;
+			j.line = buf;
+			jobs.push_back(j);
+		}
+		for (int i = 0; i < (thorough ? 2 : 1); i++) {
+			char buf[256];
+			snprintf(buf, sizeof(buf), "C %d sched seed=%llu n=8 pool=2 max=2 dur_ms=2500 mut=2 bound_ms=2500 script=plugin", caseNo++,
+				(unsigned long long)(rng.next() >> 16));
+			Job j;
+			j.line = buf;
+			jobs.push_back(j);
+		}
+		{
+			/* regression scenario of F-C04c (fixed by 1c45f06): a passive result during an active execution, then a forced check — no second
+			 * execution may start */
+			char buf[256];
+			snprintf(buf, sizeof(buf), "C %d sched seed=%llu n=2 pool=0 max=4 dur_ms=3000 mut=0 bound_ms=300 script=passive_during_check", caseNo++,
 				(unsigned long long)(rng.next() >> 16));
 			Job j;
 			j.line = buf;
